@@ -491,6 +491,8 @@ func (q *qgen) clauseText(level int) string {
 // clauses of one query share bindings the way a satisfiable join does.
 func (q *qgen) clauseFrom(t *triple.Triple, vm map[string]string, level int) string {
 	r := q.r
+	// the time bindings of EARLIER clauses: what an object interval of this clause may be bounded by
+	earlier := timeBindings(vm)
 	name := func(key string) string {
 		if b, ok := vm[key]; ok {
 			return b
@@ -592,9 +594,9 @@ func (q *qgen) clauseFrom(t *triple.Triple, vm map[string]string, level int) str
 		ta, _ := op.TimeAnchor()
 		c.OID, c.OAnchorBinding, c.OTemporal = string(op.ID()), name("t:"+instantNanos(*ta)), true
 		fmt.Fprintf(&b, `"%s"@[%s]`, op.ID(), c.OAnchorBinding)
-	} else if op, err := o.Predicate(); err == nil && op.Type() == predicate.Temporal && len(timeBindings(vm)) > 0 && r.chance(1, 2) {
+	} else if op, err := o.Predicate(); err == nil && op.Type() == predicate.Temporal && len(earlier) > 0 && r.chance(1, 2) {
 		// an object predicate bounded by time bindings of earlier clauses: "id"@[?lo,?hi] in object position
-		tbs := timeBindings(vm)
+		tbs := earlier
 		lo, hi := "", ""
 		if r.chance(2, 3) {
 			lo = tbs[r.intn(len(tbs))].name
